@@ -67,6 +67,10 @@ func (r *Ref) Equals(other vivid.ActorRef) bool {
 	if other == nil {
 		return false
 	}
+	// 接口中持有 nil *Ref（例如根 Actor 的 parent）时同样视为"无引用"，而不是解引用 nil
+	if o, ok := other.(*Ref); ok && o == nil {
+		return false
+	}
 	return r.GetAddress() == other.GetAddress() && r.GetPath() == other.GetPath()
 }
 
